@@ -91,6 +91,38 @@ def check_delta(c):
             res.check(ref.core_bytes(Y2) == ref.core_bytes(Y), 'delta.array_args', case, 'array arguments differ from list arguments')
             if any(p < 0 for p in pos):
                 res.nt((shape, pos, v))
+    # equivalent argument forms: float-typed / NumPy-integer shapes and positions, NumPy scalars for the value
+    res.ev()
+    okf = True
+    pos = [n - 1 for n in shape]
+    Y0 = teneva.delta(shape, pos, 2.5)
+    for shf, pf, vf in ((np.array(shape, dtype=np.int32), np.array(pos, dtype=np.int64), np.float64(2.5)),
+                        (tuple(shape), tuple(pos), 2.5), (np.array(shape, dtype=np.int64), [np.int64(p) for p in pos], 2.5)):
+        try:
+            okf = okf and ref.core_bytes(teneva.delta(shf, pf, vf)) == ref.core_bytes(Y0)
+        except Exception:
+            okf = False
+    C0 = teneva.const(shape, -1.5)
+    for shf, vf in ((np.array(shape, dtype=np.int32), np.float64(-1.5)), (tuple(shape), -1.5)):
+        try:
+            okf = okf and ref.core_bytes(teneva.const(shf, vf)) == ref.core_bytes(C0)
+        except Exception:
+            okf = False
+    P0 = teneva.poly(shape, 1., 2, 0.5)
+    for shf, sf, pw, sc in ((np.array(shape), np.float64(1.), np.int64(2), np.float64(0.5)), (tuple(shape), [1.] * d, 2, 0.5),
+                            (shape, np.ones(d), 2.0, 0.5)):
+        try:
+            okf = okf and ref.core_bytes(teneva.poly(shf, sf, pw, sc)) == ref.core_bytes(P0)
+        except Exception:
+            okf = False
+    R0 = teneva.rand(shape, 2, seed=3)
+    for shf, rf in (([float(n) for n in shape], 2), (np.array(shape, dtype=np.int32), 2.0), (tuple(shape), [1] + [2] * (d - 1) + [1]), (shape, np.array([1] + [2] * (d - 1) + [1], dtype=float))):
+        try:
+            okf = okf and ref.core_bytes(teneva.rand(shf, rf, seed=3)) == ref.core_bytes(R0)
+            okf = okf and ref.core_bytes(teneva.rand_stab(shf, rf, 1e-3, seed=3)) == ref.core_bytes(teneva.rand_stab(shape, 2, 1e-3, seed=3))
+        except Exception:
+            okf = False
+    res.check(bool(okf), 'forms', dict(shape=shape, vs=[2.5]), 'an equivalent form of the shape / position / value / rank argument changes (or breaks) a constructor')
     return res
 
 
